@@ -535,8 +535,20 @@ func TestC19(t *testing.T) {
 			run.ChildCrashed(res, "C19/done", "Done scenarios")
 		}
 	}()
+	// controlled mode: schedule enumeration at the verif points with simulated park/ready
+	for j := 0; j < 9; j++ {
+		j := j
+		wg.Add(1)
+		go func() {
+			defer wg.Done()
+			res := run.RunChild(fw.ChildSpec{Bin: os.Getenv("VERIF_BIN_PLAIN"), Test: "^TestC19CS$", Tag: fmt.Sprintf("cs%d", j), Env: []string{fmt.Sprintf("VERIF_RANGE=%d %d", j, j+1)}, Timeout: time.Duration(fw.N(8, 90)) * time.Minute})
+			if !res.Done {
+				run.ChildCrashed(res, "C19/controlled", j)
+			}
+		}()
+	}
 	wg.Wait()
-	code := run.Finish("stress (-race build, real gopark/commitSleep/goready): 1 fetcher (mixing blocking and non-blocking Fetch) against 1-8 goroutines asserting/clearing 1-4 wakers, seeded Gosched/spin/sleep delays injected at the verif points with the prepare->commit and enqueue->read-waitingG windows weighted; every history ends with a stop waker asserted after all asserters returned and a non-blocking drain, and is checked by porcupine against the asserted-flag specification (strict: single asserter per waker; weak: several asserters per waker, where a non-blocking 'nothing' is not judged); lost wake-up decided from state after all Assert calls returned; Done scenarios: Done races with asserters, then the sleeper is overwritten with plain stores (race detector = oracle for any later touch) and the wakers are attached to a new sleeper which must receive their assertions. distinct = distinct call/return interleaving signatures; non-trivial = at least one overlapping pair",
+	code := run.Finish("controlled (plain build): fetcher and asserters gated at the 19 verif points of sleep_unsafe.go, park/ready simulated through hooks (the commit is the same compare-and-swap), all schedules of the small programs enumerated depth-first (see exhaustive_programs), capped DFS for the larger ones; verdicts: deadlock with an asserted waker (lost wake-up), goready for a goroutine that is not asleep or twice, touch after Done, per-schedule history against the asserted-flag specification. stress (-race build, real gopark/commitSleep/goready): 1 fetcher (mixing blocking and non-blocking Fetch) against 1-8 goroutines asserting/clearing 1-4 wakers, seeded Gosched/spin/sleep delays injected at the verif points with the prepare->commit and enqueue->read-waitingG windows weighted; every history ends with a stop waker asserted after all asserters returned and a non-blocking drain, and is checked by porcupine against the asserted-flag specification (strict: single asserter per waker; weak: several asserters per waker, where a non-blocking 'nothing' is not judged); lost wake-up decided from state after all Assert calls returned; Done scenarios: Done races with asserters, then the sleeper is overwritten with plain stores (race detector = oracle for any later touch) and the wakers are attached to a new sleeper which must receive their assertions. distinct = distinct call/return interleaving signatures; non-trivial = at least one overlapping pair",
 		[]string{"an Assert call that finds its waker already asserted (fast path) performs no assertion of its own; while the first asserter has not finished enqueueing, a non-blocking Fetch may report nothing - counted under the weak model, not judged", "IsAsserted is exercised only by the waker's owning asserter (a third party can observe the flag before the enqueue completes)", "the race detector does not see commitSleep (assembly) nor gopark/goready; ordering is through the package's atomics"})
 	os.Exit(code)
 }
